@@ -288,6 +288,51 @@ fn run_atomic_api(t: &mut Tape, cx: &mut Cx) -> Result<(), String> {
     Ok(())
 }
 
+thread_local! {
+    static WORLD2: World = World {
+        mem: build_mmap(&Layout { regs: vec![(0x2000, 0x44), (0x2044, 0x3c)] }).expect("world2"),
+    };
+}
+
+/// Guest-level atomic accesses around the junction of two adjacent regions: a value that does
+/// not lie inside one region, or whose host address is misaligned, must be refused - it cannot
+/// be performed as one access.
+fn run_atomic_junction(t: &mut Tape, cx: &mut Cx) -> Result<(), String> {
+    let ty = t.below(NATOM as u64) as usize;
+    let world = t.below(2);
+    let delta = t.below(17) as i64 - 8;
+    let sz = ATOM_SIZES[ty];
+    let val = [0x3Cu8, 0xA5, 0x19, 0x7E, 0x91, 0x02, 0xF8, 0x6D];
+    let mut body = |w: &World, junction: u64| -> Result<(), String> {
+        let a = (junction as i64 + delta) as u64;
+        let ga = GuestAddress(a);
+        let expect_ok = match w.mem.to_region_addr(ga) {
+            None => false,
+            Some((r, off)) => off.0 + sz as u64 <= r.len() && (r.as_ptr() as usize + off.0 as usize) % sz == 0,
+        };
+        note!(cx, "atomic {} at guest {:#x} (junction {:#x}{:+}) expect {}", ATOM_NAMES[ty], a, junction, delta, if expect_ok { "ok" } else { "refused" });
+        cx.nt(if expect_ok { "junction_aligned_inside" } else { "junction_refused" });
+        let rs = store_sel(&w.mem, ty, &val, ga, Ordering::SeqCst);
+        let rl = load_sel(&w.mem, ty, ga, Ordering::SeqCst);
+        if expect_ok {
+            ensure!(rs.is_ok(), "atomic store::<{}> at {:#x} refused although it is aligned and inside one region: {:?}", ATOM_NAMES[ty], a, rs);
+            ensure!(matches!(&rl, Ok(v) if v[..] == val[..sz]), "atomic load::<{}> at {:#x} = {:?}", ATOM_NAMES[ty], a, rl);
+        } else {
+            ensure!(rs.is_err() && rl.is_err(), "atomic access::<{}> at guest {:#x} was accepted although it {} (junction of two regions at {:#x}): it cannot be one access", ATOM_NAMES[ty], a, "crosses the region boundary or is misaligned", junction);
+        }
+        Ok(())
+    };
+    if world == 0 {
+        WORLD.with(|w| body(w, 0x1040))
+    } else {
+        WORLD2.with(|w| body(w, 0x2044))
+    }
+}
+
+fn gen_junction(_t: Tier) -> Box<dyn Iterator<Item = Vec<u64>>> {
+    Box::new((0..NATOM as u64).flat_map(|ty| (0..2u64).flat_map(move |w| (0..17u64).map(move |d| vec![ty, w, d]))))
+}
+
 fn gen_atomic(_t: Tier) -> Box<dyn Iterator<Item = Vec<u64>>> {
     Box::new((0..NATOM as u64).flat_map(|ty| {
         (0..16u64).flat_map(move |o| (0..3u64).flat_map(move |l| (0..if l == 0 { 16u64 } else { 1 }).map(move |b| vec![ty, o, l, b])))
@@ -389,6 +434,7 @@ pub fn property() -> Property {
         subchecks: vec![
             SubCheck { name: "classes", builds: &[Build::Std, Build::Plain], kind: Kind::Exhaustive { gen: gen_classes }, run: run_class },
             SubCheck { name: "atomic_api", builds: &[Build::Std, Build::Plain], kind: Kind::Exhaustive { gen: gen_atomic }, run: run_atomic_api },
+            SubCheck { name: "atomic_junction", builds: &[Build::Std, Build::Plain], kind: Kind::Exhaustive { gen: gen_junction }, run: run_atomic_junction },
             SubCheck { name: "tearing", builds: &[Build::Plain], kind: Kind::Exhaustive { gen: gen_tearing }, run: run_tearing },
             SubCheck { name: "random", builds: &[Build::Std], kind: Kind::Random { quick: 60_000, thorough: 3_000_000, max_words: 8 }, run: run_random },
         ],
